@@ -409,7 +409,8 @@ class Cluster:
     def coordinator_for(self, ctype, key):
         node = self.coordinators.get((ctype, key))
         if node is None:
-            nodes = sorted(self.brokers)
+            # (first lookup: the role is given to a live broker if there is one)
+            nodes = sorted(n for n in self.brokers if self.brokers[n].up) or sorted(self.brokers)
             node = nodes[zlib.crc32(f"{ctype}/{key}".encode()) % len(nodes)]
             self.coordinators[(ctype, key)] = node
         return node
@@ -513,7 +514,10 @@ class Cluster:
 
     def metadata_view(self):
         return {
-            "brokers": sorted(n for n, b in self.brokers.items() if b.up),
+            # every registered broker is listed, dead or alive (a dead one stays registered
+            # until its session expires; a client that only ever heard of brokers that died
+            # since could otherwise never find the live ones again - no client re-bootstraps)
+            "brokers": sorted(self.brokers),
             "controller": self.controller,
             "topics": {
                 t.name: (t.internal, t.authorized, [p.leader for p in t.partitions])
